@@ -658,7 +658,9 @@ fn gen_c02(g: &mut Gen, keys: &Keys, id: usize) -> Vec<String> {
             cg.gen_node(ri);
         }
         let sr = if cg.g.chance(1, 25) { 70 } else { cg.rooms[ri].id };
-        cg.out.push(format!("sync r={}", sr));
+        // a third of the days go through the real `synchronise_day` (the caller then only sees Ok/Err)
+        let op = if cg.g.chance(1, 3) { "rsync" } else { "sync" };
+        cg.out.push(format!("{} r={}", op, sr));
     }
     cg.out
 }
